@@ -137,6 +137,10 @@ class FindInConstants(FindByGlob):
             if not root:
                 continue
 
+            # a search below the level of the key is not this Finder's: its key-level ancestors would not match that search
+            if len(root) != len(Sid(search_sid)):
+                continue
+
             # nothing to search, we yield - if the value is one of the constants, below a parent that exists
             if "*" not in str(root):
 
